@@ -19,7 +19,7 @@ TraceInit == Init /\ l = 1
 TraceReset == /\ l <= Len(TraceLog) /\ TraceLog[l].a = "Reset"
               /\ fed' = 0 /\ fedBytes' = 0 /\ srcErr' = FALSE /\ ch' = <<>> /\ closed' = FALSE
               /\ bufRem' = 0 /\ bufErr' = FALSE /\ delivered' = 0 /\ pending' = 0
-              /\ errSeen' = FALSE /\ postErr' = 0
+              /\ errSeen' = FALSE /\ postErr' = 0 /\ held' = None /\ next' = 0
               /\ obs' = [a |-> "Init"] /\ l' = l + 1
 TraceStep == /\ l <= Len(TraceLog) /\ TraceLog[l].a # "Reset"
              /\ l' = l + 1
